@@ -154,7 +154,14 @@ func (p *memoryState[T]) SMembers(key string) ([]string, error) {
 		return []string{}, err
 	}
 
-	return set.([]string), nil
+	// Return a copy: SRem compacts the stored slice in place, so a caller that
+	// iterates over the members while removing some of them (the concurrent
+	// strategy's expiry collector) would otherwise skip the element following
+	// every removed one and leave expired members behind.
+	members := set.([]string)
+	membersCopy := make([]string, len(members))
+	copy(membersCopy, members)
+	return membersCopy, nil
 }
 
 func (p *memoryState[T]) SRem(key string, value string) error {
